@@ -8,12 +8,12 @@ import tempfile
 from vmon.core import PY, VERIF, jloads, repo_path, worker_env
 
 
-def run(timeout=900):
+def run(timeout=240):
     fd, path = tempfile.mkstemp(prefix="workloadR-", suffix=".json", dir=os.path.join(VERIF, "out"))
     os.close(fd)
     env = worker_env({"VMON_REPORT": path, "VMON_REACH": "0"})
     try:
-        p = subprocess.run([PY, "-m", "pytest", "-q", "-p", "vmon.pytest_plugin", "-p", "no:cacheprovider", os.path.join(repo_path(), "tests")],
+        p = subprocess.run([PY, "-m", "pytest", "-q", "--timeout=30", "-p", "vmon.pytest_plugin", "-p", "no:cacheprovider", os.path.join(repo_path(), "tests")],
                            cwd=repo_path(), env=env, capture_output=True, text=True, timeout=timeout)
         if not os.path.getsize(path):
             return None, "no report written (pytest exit %s): %s" % (p.returncode, (p.stdout + p.stderr)[-300:])
